@@ -332,4 +332,14 @@ def main():
 
 
 if __name__ == '__main__':
-    sys.exit(main())
+    try:
+        rc = main()
+    except SystemExit:
+        raise
+    except BaseException:
+        # an internal error of the machinery is never a verdict about the code: exit 2 (inconclusive), not 1
+        import traceback
+        traceback.print_exc()
+        print('INCONCLUSIVE reason=internal error of the checker (traceback above)')
+        rc = 2
+    sys.exit(rc)
